@@ -25,7 +25,8 @@ ACCEPTED GRAMMAR (everything else -> TranslateError naming file, line and constr
              `logger = getLogger(__name__)`, the two functions, the class; every name the reading relies on bound once
   loop fns   ACC = <number> | ACC = []          NZ = numpy.argwhere(numpy.logical_not(numpy.isclose(<param 1>, 0)))
              for (i, j), (k, l) in itertools.product(NZ, NZ):  <loop body>          return ACC
-             loop body:  NAME = expr (fresh local)   |   if TARGET and KEY == TARGET: continue   (at most once, before
+             loop body:  KEY = c_(<4 ints of the loop indices>)  (exactly once; emitted as gen_energy_key / gen_keys_key)
+             |   NAME = expr (fresh numeric local)   |   if TARGET and KEY == TARGET: continue   (at most once, before
              any resolver call; also `TARGET is not None and ...`, operands of == in either order)
              last statement:  ACC += expr | ACC -= expr | ACC = <expr in ACC>   resp.   ACC.append(KEY)
              NO other AugAssign, no call but c_(..4 ints..) and <resolver param>(KEY), no attribute, no numpy.*
@@ -281,6 +282,9 @@ class LoopFn(Exprs):
     def __init__(self, fn, mode):
         self.fn, self.mode = fn, mode          # mode: "energy" | "keys"
         self.resolver_called = False
+        self.keydef = None
+        self.keyname = "gen_energy_key" if mode == "energy" else "gen_keys_key"
+        self.idx = []
 
     # -- expressions in the loop body
     def name(self, e, env):
@@ -292,6 +296,9 @@ class LoopFn(Exprs):
         bail(e, "unknown name")
 
     def call(self, e, env):
+        if src_of(e.func).startswith("numpy."):
+            bail(e, "numpy call on a resolved modulus / in the loop body (it may alias the caller's array: a "
+                    "following in-place operation would scale the stored modulus)")
         if e.keywords or any(isinstance(a, ast.Starred) for a in e.args):
             bail(e, "keyword / starred arguments in a call")
         if isinstance(e.func, ast.Name) and e.func.id == "c_":
@@ -305,10 +312,6 @@ class LoopFn(Exprs):
             k = to_key(e.args[0], self.expr(e.args[0], env))
             self.resolver_called = True
             return V("F", "(%s %s)" % (env[e.func.id].t, k))
-        f = src_of(e.func)
-        if f.startswith("numpy."):
-            bail(e, "numpy call on a resolved modulus / in the loop body (it may alias the caller's array: a "
-                    "following in-place operation would scale the stored modulus)")
         bail(e, "call outside the translator's grammar")
 
     # -- the function
@@ -377,6 +380,7 @@ class LoopFn(Exprs):
         if len(set(idx)) != 4 or set(idx) & (set(names) | {acc, nz} | RESERVED):
             bail(tg, "loop index names must be four fresh distinct names")
         ci = [coq_name(tg, n) for n in idx]
+        self.idx = idx
         env = {fs: V("M", cn[fs]), tgt: V("Opt", cn[tgt]), acc: V("Acc?", coq_name(fn, acc)), nz: V("Acc?", None)}
         if energy:
             env[res] = V("Res", cn[res])
@@ -387,7 +391,10 @@ class LoopFn(Exprs):
         accty = "F" if energy else "list vkey"
         params = "(isz : F -> bool) (%s : nat -> nat -> F)%s (%s : option vkey)" % (
             cn[fs], " (%s : vkey -> F)" % cn[res] if energy else "", cn[tgt])
-        text = ("  Definition %s %s : %s :=\n"
+        if self.keydef is None:
+            bail(fn, "no key local (`key = c_(i+1, j+1, k+1, l+1)`) in the loop body of")
+        text = ("  Definition %s (%s : nat) : vkey :=\n    %s.\n" % (self.keyname, " ".join(ci), self.keydef)) + \
+               ("  Definition %s %s : %s :=\n"
                 "    fold_left (fun (%s : %s) (t : nat * nat * nat * nat) =>\n"
                 "      let '(%s, %s, %s, %s) := t in\n"
                 "      if negb (isz (%s %s %s)) && negb (isz (%s %s %s)) then\n%s\n"
@@ -437,6 +444,13 @@ class LoopFn(Exprs):
                     v = V("F", const_F(v.c))
                 if v.ty not in ("F", "Z", "Key"):
                     bail(s, "a loop local must be a number or a key")
+                if v.ty == "Key":
+                    # the key of the tuple becomes a definition of its own (its tie is a finite check over the 81 tuples)
+                    used = {x.id for x in ast.walk(s.value) if isinstance(x, ast.Name)} - {"c_"}
+                    if self.keydef is not None or not used <= set(self.idx):
+                        bail(s, "exactly one key local, built from the four loop indices only, is accepted")
+                    self.keydef = v.t
+                    v = V("Key", "(%s %s)" % (self.keyname, " ".join(env[x].t for x in self.idx)))
                 lines.append("%slet %s := %s in" % (ind, c, v.t))
                 env[nm] = V(v.ty, c)
                 continue
@@ -874,6 +888,7 @@ class ClassTr(Exprs):
         bail(e, "call outside the translator's grammar")
 
     def loop_call(self, e, env, energy):
+        self.use(e, "@energy" if energy else "@keys")
         names = self.loop_params["energy" if energy else "keys"]
         args = {}
         if len(e.args) > len(names):
@@ -897,7 +912,6 @@ class ClassTr(Exprs):
                 t = "(Some %s)" % tv.t
             elif tv.ty != "None":
                 bail(args[names[-1]], "the target must be self.key or None")
-        self.use(e, "@energy" if energy else "@keys")
         if energy:
             r = self.expr(args[names[1]], env)
             if r.ty != "Fun":
@@ -1026,7 +1040,7 @@ def translate(src, util_src=None, voigt_src=None):
         try:
             text = LoopFn(fn, mode).translate()
             out.append("  (* %s  (line %d) *)\n%s\n" % (name, fn.lineno, text))
-            defined.append("gen_energy" if mode == "energy" else "gen_energy_keys")
+            defined += ["gen_energy_key", "gen_energy"] if mode == "energy" else ["gen_keys_key", "gen_energy_keys"]
             loop_ok[mode] = True
             loop_params[mode] = [a.arg for a in fn.args.args]
         except TranslateError as ex:
